@@ -401,7 +401,7 @@ def asciiUC : UC where
 
 /-- `u` agrees with Rust's `char` methods on ASCII (a fact about Rust's std the theorems assume;
     the driver's instance satisfies it by construction, see `mkUC`). -/
-structure UC.WF (u : UC) : Prop where
+structure UCWF (u : UC) : Prop where
   alphabetic : ∀ c : Char, c.toNat < 128 → u.is_alphabetic c = asciiUC.is_alphabetic c
   numeric : ∀ c : Char, c.toNat < 128 → u.is_numeric c = asciiUC.is_numeric c
   uppercase : ∀ c : Char, c.toNat < 128 → u.is_uppercase c = asciiUC.is_uppercase c
